@@ -609,7 +609,8 @@ class CellRemoveVertices(Contract):
                 ctx.oblige(f"{tag}-has-one-entry-per-surviving-vertex", Z(new.shape[0]) == m)
                 ctx.oblige(f"{tag}-each-surviving-vertex-keeps-its-value", z3.Implies(z3.And(t >= 0, t < m), new.elem(t) == old.elem(vpos(t))))
         mc = Z(newC.shape[0])
-        ctx.oblige("cells-reference-existing-vertices", z3.Implies(z3.And(c >= 0, c < mc, j >= 0, j < w), z3.And(newC.elem(c, j) >= 0, newC.elem(c, j) < m)))
+        for jj in range(w):  # one obligation per cell column: small queries are the stable ones
+            ctx.oblige(f"cells-reference-existing-vertices[column {jj}]", z3.Implies(z3.And(c >= 0, c < mc), z3.And(newC.elem(c, jj) >= 0, newC.elem(c, jj) < m)))
         # every surviving cell joins the same coordinates as before: there is an old cell (the
         # cpos(c)-th) none of whose vertices was removed, and new vertex -> old vertex through vpos
         sets = [p["arr"] for k_, p in ctx.path.events if k_ == "cells-set"]
@@ -625,7 +626,8 @@ class CellRemoveVertices(Contract):
         else:
             ctx.oblige("cells-assigned-once-or-twice", False)
             return
-        ctx.oblige("every-surviving-cell-joins-the-same-coordinates", z3.Implies(z3.And(c >= 0, c < mc, j >= 0, j < w, a >= 0, a < 3), newV.elem(newC.elem(c, j), a) == V.elem(C.elem(cp(c), j), a)))
+        for jj in range(w):
+            ctx.oblige(f"every-surviving-cell-joins-the-same-coordinates[column {jj}]", z3.Implies(z3.And(c >= 0, c < mc, a >= 0, a < 3), newV.elem(newC.elem(c, jj), a) == V.elem(C.elem(cp(c), jj), a)))
         kid, old = e["kids"]["cell_data"], e["child_values"]["cell_data"]
         new = kid.attrs.get("values")
         if len(sets) == 2:
